@@ -13,8 +13,8 @@ import numpy as np
 
 from . import fld
 
-DIMS = ("a", "b", "c")
-VDIMS = {1: None, 2: ("p", "q"), 3: ("p", "q", "w")}
+DIMS = ("a", "b", "c", "d")
+VDIMS = {1: None, 2: ("p", "q"), 3: ("p", "q", "w"), 4: ("p", "q", "w", "u")}
 SUBNAMES = ("s1", "s2", "s3")
 
 
